@@ -7,6 +7,7 @@ import Mathlib.Tactic.IntervalCases
 import Pycoin.Proofs.VMEval
 import Pycoin.Proofs.VMSigEnc
 import Pycoin.Proofs.VMEval2
+import Pycoin.Proofs.VMVerify2
 import Pycoin.Spec.Secp256k1
 /-!
 C03M — the Lean model of pycoin's script VM (`Pycoin.VM`, tied to the code by `harness/props/c03m.py`) against the
@@ -482,5 +483,55 @@ theorem C03M_chk_wf_needed :
     (evalScript (stdEnv fun _ _ _ _ => true) ⟨[0xac], ⟨0, 0, 1⟩, 0, true⟩ [demoKey 7, []]).toOption.map (·.stack) ≠
       (Consensus.evalScript (specChk fun _ _ _ _ => true) [demoKey 7, []] [0xac] (Flags.ofBits 0) ⟨1, 0, 0⟩ .witnessV0).toOption := by
   decide
+
+
+/-! ## the whole spend check: `check_solution` = `VerifyScript` -/
+
+section
+variable (chk : Bytes → Bytes → Bytes → Bool → Bool)
+
+/-- `_check_script_push_only` (walks `get_opcode`, ignores decode failures; `data_opcodes` leaves OP_RESERVED out) and
+`CScript::IsPushOnly` accept the same scripts among those `EvalScript` runs to the end — a script on which they differ
+(truncated push, OP_RESERVED) fails its own evaluation, on both sides -/
+theorem C03M_verify_pushonly (cfg : Config) (stack : List Bytes) (st' : Consensus.State)
+    (h : specLoop chk cfg cfg.script.length cfg.script 0 { stack := stack } = .ok st') :
+    (checkScriptPushOnly cfg.script = .ok ()) ↔ isPushOnly cfg.script = true := pushonly_agree chk cfg stack st' h
+
+/-- `EvalScript` looks at the flags in `evalPart` only: stripping MINIMALIF / WITNESS_PUBKEYTYPE / P2SH from the flags of a
+base-version VM, or adding CLEANSTACK to those of a witness VM, as `check_solution` does, changes no evaluation -/
+theorem C03M_verify_flags (sc : Bytes → Bytes → Bytes → SigVersion → Bool) (stack : List Bytes) (script : Bytes)
+    (F G : Flags) (tx : Consensus.TxCtx) (sv : SigVersion) (h : evalPart sv F = evalPart sv G) :
+    Consensus.evalScript sc stack script F tx sv = Consensus.evalScript sc stack script G tx sv :=
+  evalScript_congr sc stack script F G tx sv h
+
+/-- witness-program detection: `_witness_program_version` + `puzzle_script[2:]` = `CScript::IsWitnessProgram`;
+`is_pay_to_script_hash` = `CScript::IsPayToScriptHash` -/
+theorem C03M_verify_detect (s : Bytes) :
+    isWitnessProgram s = (witnessProgramVersion s).map (fun v => (v, s.drop 2)) ∧
+      isPayToScriptHash s = Consensus.isPayToScriptHash s := ⟨witnessProgram_eq s, isP2SH_eq s⟩
+
+/-- the end of the pipeline, for the script `puzzle` to be tested (scriptPubKey, or redeem script when `isP2sh`):
+`witness_program_tuple` (malleation rule on the scriptSig bytes, v0 20/32-byte rules, 520-byte item limit, P2WPKH script,
+DISCOURAGE_UPGRADABLE_WITNESS_PROGRAM, WITNESS_UNEXPECTED), the witness VM, and the CLEANSTACK rule with the flags of the
+last tuple = the rest of `VerifyScript` (`VerifyWitnessProgram`, `stack.resize(1)`, CLEANSTACK, WITNESS_UNEXPECTED) -/
+theorem C03M_verify_tail (hchk : ChkWF chk) (c : SolCtx) (puzzle : Bytes) (flags : Nat) (isP2sh : Bool) (lastFlags : Nat)
+    (stackPy : List Bytes) (hcl : hasFlag lastFlags Gen.VM.VERIFY_CLEANSTACK = (Flags.ofBits flags).cleanstack) :
+    (witnessTail (stdEnv chk) c puzzle flags isP2sh lastFlags stackPy).toOption.isSome =
+      (specTail (specChk chk) c.solutionScript c.witnessPy (Flags.ofBits flags) (specTx c.tx) puzzle isP2sh stackPy.length).isNone :=
+  witnessTail_spec chk hchk c puzzle flags isP2sh lastFlags stackPy hcl
+
+/-- **C03.verify_eq**: `BitcoinSolutionChecker.check_solution(tx_context, flags)` succeeds exactly when Core's
+`VerifyScript(scriptSig, scriptPubKey, witness, flags)` does — for every scriptSig, scriptPubKey, witness stack, flag set
+(no restriction to the combinations Core permits) and transaction context: SIGPUSHONLY, scriptSig evaluation, stack
+copy, scriptPubKey evaluation, truth test, P2SH detection / push-only rule / redeem script, witness-program detection
+(native and P2SH-wrapped), malleation rules, v0 20/32-byte rules, P2WPKH script, 520-byte items, upgradable versions,
+CLEANSTACK, WITNESS_UNEXPECTED.  The MINIMALIF / WITNESS_PUBKEYTYPE hypothesis of `C03M_eval_eq` is discharged here from
+how `check_solution` builds its VMs. -/
+theorem C03M_verify_eq (hchk : ChkWF chk) (c : SolCtx) (flags : Nat) (hdel : VerifyDelShared chk c flags) :
+    (checkSolution (stdEnv chk) c flags).toOption.isSome =
+      (verifyScript (specChk chk) c.solutionScript c.puzzleScript c.witnessPy (Flags.ofBits flags) (specTx c.tx)).isNone :=
+  verify_eq chk hchk c flags hdel
+
+end
 
 end Pycoin.VM
